@@ -125,7 +125,7 @@ def check_table_ep(acc, order, other):
     regd = []
     seq = [("aa.tt", v) for v in order]
     for j, v in enumerate(other):  # a second plugin name interleaved
-        seq.insert(min(len(seq), 2 * j + 1), ("aa.ttx" if j % 2 else "aa.t-t", v))
+        seq.insert(min(len(seq), 2 * j + 1), ("aa.ttx" if j % 2 else "aa.tt-x", v))
     for n, v in seq:
         epn = to_ep_name(n, v)
         ep = importlib_metadata.EntryPoint(epn, "checks.c16_pluginrefs:nothing", to_ep_group_name("schema"))._for(_Dist)
